@@ -82,8 +82,10 @@ def stack_monitor(ctx, env, program, detail):
             top = stack[-1] if stack else None
             ctx.check(top == ("c", e[2]), "cleanup.lifo-top-of-stack",
                       lambda: {"ran": e[2], "top": top, "stack": list(stack), **detail()})
-            if ("c", e[2]) in stack:
-                stack.remove(("c", e[2]))
+            for i in range(len(stack) - 1, -1, -1):      # (the LAST such entry: the same cleanup may be registered twice)
+                if stack[i] == ("c", e[2]):
+                    del stack[i]
+                    break
         elif tag in ("scratch_set", "scratch_del") and not e[-1]:
             first_undo_seq = first_undo_seq or seq
             attr = e[2]
@@ -117,7 +119,7 @@ def stack_monitor(ctx, env, program, detail):
     ctx.check(not stack, "cleanup.each-exactly-once",
               lambda: {"never undone": list(stack), **detail()})
     regs = [e[2] for e in env.tags("reg")]
-    ctx.check(all(ran.get(c, 0) == 1 for c in regs) and set(ran) <= set(regs),
+    ctx.check(all(ran.get(c, 0) == regs.count(c) for c in regs) and set(ran) <= set(regs),
               "cleanup.each-exactly-once", lambda: {"registered": regs, "ran": ran, **detail()})
     # fixtures: every fixture whose _setUp started is cleaned up exactly once
     started = [e[2] for e in env.tags("fixture_setup")]
